@@ -21,7 +21,7 @@ ASSUMPTIONS = ['reference semantics are the statement of C10 verbatim (vp/refs/n
                'generated files are well-formed (consistent nesting, equal-length ordered endpoints)']
 
 R1 = [('0', '0'), ('0', '1'), ('1', '2'), ('2', '2'), ('00', '00'), ('00', '11'), ('01', '20'), ('10', '22')]
-P = ['', 'a="1"', 'a="2"', 'b="3"']
+P = ['', 'a="1"', 'a="2"', 'b="3"', 'c="x\\y # z"', 'a-b_9="\\"']
 
 
 def rtxt(r):
